@@ -76,3 +76,7 @@ reg("C19", "runtime monitoring: brute-force loop-nest MAC counters as reference,
 reg("C20", "runtime monitoring: recording/replaying hyper-parameter stub that enumerates the decision tree of the real AutoQKHyperModel (DFS / product / pairwise+random), per-leaf oracle from an independent resolution of the limits; contracts on ForgivingFactor.delta",
     "28 (quick) / 112 (thorough) scenarios = reference model x limit dictionary (per class, regex patterns incl. overlapping, allow-lists, default padding) x quantization config (small: exhaustive; library default: sampled) x tune_filters x layer_indexes: every value offered by every Choice and every quantizer of every trial model lies in {config entries with bits <= limit(layer, role)} and equals the stub's answer; excluded / softmax / linear layers untouched; one decision per pattern group; architecture and filter scaling as requested; size model recomputed independently; delta sign/zero/monotone/continuity/calibration on a parameter grid and online on every call; build() trial size and adjusted score.",
     "Search-space completeness is observed, not enforced (the statement is about soundness); spaces above the leaf cap are sampled and reported as non-exhaustive.", "5/C20")
+
+reg("C18", "runtime monitoring: value-lattice membership oracle over tensors observed in the running model vs the types QTools reports; estimator upper-bound check on observed outputs",
+    "Generated quantized models (1..3 dense/conv1d/conv2d/depthwise layers with QActivation between, +-bias, fan-in around powers of two, five weight-quantizer families, four activation families, random and saturated weights) fed with points of the source quantizer's lattice incl. all-max, all-min and per-channel sign-aligned extremal inputs: every observed pre-activation, quantized weight, bias and activation value (float32 -> Fraction) must belong to the value lattice of the reported accumulator (scale-adjusted for auto_po2), weight, bias and output types; analyze_accumulator must bound the observed output magnitude for the observed input ranges (also on a small-magnitude sub-range).",
+    "Bit budgets keep float32 accumulation exact; auto_po2 follows the documented export-then-QTools flow; lattices from vf/ref/types.py.", "5/C18")
